@@ -45,6 +45,9 @@ CLAIMED = {
  "C10": ("exploration", "seeded streams over sketches from 1x1 (everything collides) to collision-free, shadow CountMinSketch supplying the largest overestimate E at every prefix, under catch_unwind with debug assertions enabled",
          "Reference-model checking of iter() (cardinality, distinctness, membership, the k-others-within-E condition) and of panic freedom at every prefix; collisions are provoked by table shape because CMSHeap fixes the default hasher.",
          "CMSHeap offers no hasher seam; E is taken from a shadow sketch of identical parameters, which is bit-identical to the inner one."),
+ "C20": ("fault_enumeration", "fault enumeration over the stored bytes: a catalogue of ~130 structural corruptions per base sketch (b, registers length, register values, field drop/dup/retype/reorder, replaced document) plus seeded truncations, bit flips and torn writes; accepted documents are exercised under catch_unwind",
+         "The serialised document is the fault surface: for every precision and several register fills the catalogue is enumerated completely and byte-level faults are sampled; from_slice must fail or return a sketch with 4 <= b <= 18 and 2^b registers on which add/add_hashed/count/merge/clear do not panic; the untouched document must round-trip to an equal sketch that stays equal under a common continuation.",
+         "JSON (serde_json) is the only format exercised; the hasher is the serialisable SimHasher."),
 }
 
 PENDING = {}
